@@ -18,7 +18,8 @@ CONSTANTS
   MaxLeaves,                  \* trees with 1..MaxLeaves leaves
   Weak_NoProofIndexBinding,   \* AddPart does not compare proof.index/total with part.index/header.total
   Weak_AuntLenUnchecked,      \* computeHashFromAunts ignores surplus aunts at a single leaf
-  Weak_NoLeafCheck            \* Verify does not compare the proof's leaf hash with the item
+  Weak_NoLeafCheck,           \* Verify does not compare the proof's leaf hash with the item
+  Weak_TruncatedPosition      \* AddPart compares proof.index/total with part.index/header.total modulo 2^32 only
 
 Nil == "nil"
 ItemName(i) == SubSeq("abcdefghijklmnop", i, i)
@@ -53,7 +54,8 @@ Aunts(leaves, i) ==
                    ELSE Append(Aunts(r, i - k), Root(l))
 
 \* big: the stated leaf count is total + big * 2^32 (TLC integers are 32-bit; Proof.Total is an int64 taken from the wire)
-Proof(leaves, i) == [total |-> Len(leaves), big |-> 0, index |-> i, leaf |-> LeafH(leaves[i + 1]),
+\* ibig: likewise the stated index is index + ibig * 2^32 (Proof.Index is an int64 from the wire, Part.Index a uint32)
+Proof(leaves, i) == [total |-> Len(leaves), big |-> 0, index |-> i, ibig |-> 0, leaf |-> LeafH(leaves[i + 1]),
                      aunts |-> Aunts(leaves, i)]
 
 \* ---------------------------------------------------------------- proof.go
@@ -73,13 +75,33 @@ ComputeRoot(index, total, leaf, aunts) ==
           ELSE LET h == ComputeRoot(index - k, total - k, leaf, rest) IN
                IF h = Nil THEN Nil ELSE InnerH(last, h)
 
-\* Proof.Verify(root, item) = nil error
+\* computeHashFromAunts on 64-bit numbers written hi * 2^32 + lo with small lo >= 0 (0 <= lo < 2^31, fewer than 32 aunts):
+\*  - a total of thi * 2^32 exactly decomposes into complete subtrees of >= 2^32 leaves: every path has >= 32 aunts -> nil
+\*  - a total of thi * 2^32 + tlo (tlo > 0) splits at P * 2^32, P the largest power of two <= thi; the left part is
+\*    again a multiple of 2^32 (nil), the right part is (thi - P) * 2^32 + tlo
+RECURSIVE Pow2AtMost(_, _)
+Pow2AtMost(n, k) == IF 2 * k <= n THEN Pow2AtMost(n, 2 * k) ELSE k
+RECURSIVE ComputeRootB(_, _, _, _, _, _)
+ComputeRootB(ihi, ilo, thi, tlo, leaf, aunts) ==
+  IF ihi = 0 /\ thi = 0 THEN ComputeRoot(ilo, tlo, leaf, aunts)
+  ELSE IF ihi < 0 \/ thi <= 0 \/ ilo < 0 \/ tlo < 0 THEN Nil      \* index < 0, or index >= 2^32 > total
+  ELSE IF ~(ihi < thi \/ (ihi = thi /\ ilo < tlo)) THEN Nil       \* index >= total
+  ELSE IF tlo = 0 \/ Len(aunts) = 0 THEN Nil
+  ELSE LET P    == Pow2AtMost(thi, 1)
+           last == aunts[Len(aunts)]
+           rest == SubSeq(aunts, 1, Len(aunts) - 1)
+       IN IF ihi < P THEN Nil
+          ELSE LET h == ComputeRootB(ihi - P, ilo, thi - P, tlo, leaf, rest) IN
+               IF h = Nil THEN Nil ELSE InnerH(last, h)
+
+\* Proof.Verify(root, item) = nil error.  Against the root of a modelled tree a proof stating 2^32 leaves or more never
+\* verifies (33+ aunts); against a root CRAFTED by whoever signs the header it can (ComputeRootB).
 Verify(p, root, item) ==
-  /\ p.big = 0        \* a tree of 2^32 leaves or more has paths of 33+ aunts: no proof over the modelled trees has that shape
+  /\ Len(p.aunts) < 32
   /\ p.total >= 0
   /\ p.index >= 0
   /\ (Weak_NoLeafCheck \/ p.leaf = LeafH(item))
-  /\ ComputeRoot(p.index, p.total, p.leaf, p.aunts) = root
+  /\ ComputeRootB(p.ibig, p.index, p.big, p.total, p.leaf, p.aunts) = root
 
 \* The sequence of left/right turns and the number of aunts the verifier consumes for
 \* (index,total): two (index,total) pairs with the same shape are indistinguishable to
@@ -109,6 +131,12 @@ SeqMutations(s, pool) ==
   \cup {[s EXCEPT ![k] = h] : k \in 1..n, h \in pool}
   \cup {[j \in 1..n |-> IF j = k THEN s[k + 1] ELSE IF j = k + 1 THEN s[k] ELSE s[j]] : k \in 1..(n - 1)}
 
+\* index / total shifted by multiples of 2^32 (ibig, big), and aunt lists with one hash more or one less at either end
+HighBits == {<<0, 0>>, <<0, 1>>, <<1, 0>>, <<1, 1>>, <<2, 2>>, <<1, 2>>}
+AuntEdits(s, pool) ==
+  {s} \cup {Append(s, h) : h \in pool} \cup {<<h>> \o s : h \in pool}
+      \cup (IF Len(s) > 0 THEN {SubSeq(s, 1, Len(s) - 1)} ELSE {})
+
 \* every candidate (proof, claimed item) presented against Root(leaves) for position i
 Candidates(leaves, i) ==
   LET n    == Len(leaves)
@@ -119,6 +147,8 @@ Candidates(leaves, i) ==
            k \in -1..(n + 2), t \in -1..(n + 3)}
   \cup {[proof |-> [g EXCEPT !.total = t, !.big = b], item |-> leaves[i + 1], mut |-> "total_high_bits"] :
            t \in {n, n + 1}, b \in {1, 3, 1024}}
+  \cup {[proof |-> [g EXCEPT !.ibig = hb[1], !.big = hb[2], !.aunts = a], item |-> leaves[i + 1], mut |-> "high_bits"] :
+           hb \in HighBits \ {<<0, 0>>}, a \in AuntEdits(g.aunts, {LeafH("zz"), Root(leaves)})}
   \cup {[proof |-> [g EXCEPT !.leaf = h], item |-> leaves[i + 1], mut |-> "leaf"] : h \in pool}
   \cup {[proof |-> g, item |-> x, mut |-> "item"] : x \in its}
   \cup {[proof |-> [g EXCEPT !.leaf = LeafH(x)], item |-> x, mut |-> "leaf_and_item"] : x \in its}
@@ -136,7 +166,7 @@ RealCases == Cases
 
 \* what the property demands of an accepted (proof,item) against Root(leaves)
 Binds(leaves, p, item) ==
-  /\ p.total = Len(leaves) /\ p.big = 0
+  /\ p.total = Len(leaves) /\ p.big = 0 /\ p.ibig = 0
   /\ p.index \in 0..(Len(leaves) - 1)
   /\ item = leaves[p.index + 1]
 
@@ -145,7 +175,7 @@ Binds(leaves, p, item) ==
 ShapeAlias(leaves, p, item) ==
   \E j \in 0..(Len(leaves) - 1) :
      /\ leaves[j + 1] = item
-     /\ p.big = 0
+     /\ p.big = 0 /\ p.ibig = 0
      /\ Shape(p.index, p.total) = Shape(j, Len(leaves))
      /\ p.aunts = Aunts(leaves, j)
      /\ p.leaf = LeafH(item)
@@ -171,11 +201,34 @@ PartCandidates(leaves) ==
   \cup {[index |-> n, bytes |-> leaves[i + 1], proof |-> Proof(leaves, i), mut |-> "index_eq_total"]}
   : i \in 0..(n - 1)}
 
+\* Headers a part set can be created from (NewPartSetFromHeader takes what the proposer signed): the genuine one and
+\* crafted ones whose root wraps the genuine root with one more inner node.
+GenuineHeader(leaves) == [total |-> Len(leaves), root |-> Root(leaves)]
+CraftPool(leaves) == {LeafH("zz"), Root(leaves)}
+Headers(leaves) ==
+  {GenuineHeader(leaves)}
+  \cup {[total |-> Len(leaves), root |-> InnerH(x, Root(leaves))] : x \in CraftPool(leaves)}
+  \cup {[total |-> Len(leaves), root |-> InnerH(Root(leaves), x)] : x \in CraftPool(leaves)}
+
+\* genuine bytes at their own position, proof index/total shifted by k * 2^32, aunts extended / shortened
+HighBitCandidates(leaves) ==
+  UNION {{[index |-> i, bytes |-> leaves[i + 1],
+           proof |-> [Proof(leaves, i) EXCEPT !.ibig = hb[1], !.big = hb[2], !.aunts = a], mut |-> "high_bits"] :
+             hb \in HighBits, a \in AuntEdits(Aunts(leaves, i), CraftPool(leaves))} : i \in 0..(Len(leaves) - 1)}
+
+\* the aunts presented authenticate LeafH(bytes) at (part.index, header.total) under the header's root: what
+\* "the i-th piece of the data committed to by the header's root and part count" means for the presented path
+PosProven(hdr, p) ==
+  /\ p.index >= 0 /\ p.index < hdr.total
+  /\ ComputeRoot(p.index, hdr.total, LeafH(p.bytes), p.proof.aunts) = hdr.root
+
 \* AddPart: returns [slots, added, err]
 AddPart(hdr, slots, p) ==
   IF p.index >= hdr.total THEN [slots |-> slots, added |-> FALSE, err |-> "UnexpectedIndex"]
   ELSE IF slots[p.index + 1] # Nil THEN [slots |-> slots, added |-> FALSE, err |-> "none"]
-  ELSE IF ~Weak_NoProofIndexBinding /\ (p.proof.index # p.index \/ p.proof.total # hdr.total \/ p.proof.big # 0)
+  ELSE IF ~Weak_NoProofIndexBinding
+          /\ (p.proof.index # p.index \/ p.proof.total # hdr.total
+              \/ (~Weak_TruncatedPosition /\ (p.proof.big # 0 \/ p.proof.ibig # 0)))
        THEN [slots |-> slots, added |-> FALSE, err |-> "InvalidProof"]
   ELSE IF ~Verify(p.proof, hdr.root, p.bytes) THEN [slots |-> slots, added |-> FALSE, err |-> "InvalidProof"]
   ELSE [slots |-> [slots EXCEPT ![p.index + 1] = p.bytes], added |-> TRUE, err |-> "none"]
